@@ -21,7 +21,8 @@ class ProcLoop:
     `fields`: node fields the body may change; `back`: extra obligations at the back edge, given (head, state)."""
     variant = None
 
-    def __init__(self, lib, cls, fields, back=None, head=None, props=("C03", "C10"), heaps=(), assume_only=None):
+    def __init__(self, lib, cls, fields, back=None, head=None, props=("C03", "C10"), heaps=(), assume_only=None,
+                 keep_now=False):
         self.lib, self.cls, self.fields, self.back, self.head, self.props, self.heaps = lib, cls, fields, back, head, props, heaps
         self.assume_only = assume_only      # standing assumptions about the configuration (not re-proved)
 
